@@ -210,6 +210,44 @@ def validity(result, result_text, universe, consts, max_facts) -> Optional[dict]
     return None
 
 
+def interface_check(src_prg, result, cfg, rec) -> Optional[str]:
+    """C07 structural oracle"""
+    from clingo.ast import ASTType  # pylint: disable=import-outside-toplevel
+
+    inp = cfg["inp"] if cfg["inp"] != "auto" else (rec.get("auto_in") or [])
+    out = cfg["out"] if cfg["out"] != "auto" else (rec.get("auto_out") or [])
+    inset = {tuple(p) for p in inp}
+    declared = inset | {tuple(p) for p in out}
+
+    def heads(prg) -> set:
+        hs: set = set()
+        for s in prg:
+            if s.ast_type == ASTType.Rule:
+                hs |= vocabulary([s.head])
+        return hs
+
+    src_heads, res_heads = heads(src_prg), heads(result)
+    new_input_heads = (res_heads & inset) - src_heads
+    if new_input_heads:
+        return f"input predicate(s) {sorted(new_input_heads)} got a defining rule"
+    src_voc = vocabulary(src_prg)
+    clash = (res_heads - src_voc) & declared
+    if clash:
+        return f"invented head predicate(s) {sorted(clash)} coincide with declared input/output predicates"
+    keep = (ASTType.Rule, ASTType.Minimize)
+
+    def nonrules(prg):
+        out_ = [str(s) for s in prg if s.ast_type not in keep]
+        while out_ and out_[0] == "#program base.":
+            out_ = out_[1:]
+        return out_
+
+    a, b = nonrules(src_prg), nonrules(result)
+    if a != b:
+        return f"non-rule statements changed: {a} -> {b}"
+    return None
+
+
 def rewrite_signature(prev_text: str, cur_text: str) -> tuple[str, str]:
     prev = prev_text.split("\n")
     cur = cur_text.split("\n")
@@ -301,6 +339,12 @@ def run_job(job: dict) -> dict:
             cres["fired"].append("normalize")
         if rec["mutated"] and "immut" in checks:
             cres["violations"].append({"kind": "mutated_argument"})
+        if "interface" in checks:
+            msg = interface_check(src_prg, rec["result"], cfg, rec)
+            if msg:
+                sig, canon = rewrite_signature(prg_text(src_prg), rec["result_text"])
+                cres["violations"].append({"kind": "interface", "detail": msg, "culprit": "interface", "sig": sig,
+                                           "before": prg_text(src_prg), "after": rec["result_text"]})
         if "valid" in checks:
             v = validity(rec["result"], rec["result_text"], universe, consts, max_facts)
             if v is not None:
@@ -330,11 +374,27 @@ def run_job(job: dict) -> dict:
                     for bi in bad:
                         names = set()
                         for atoms, _, _ in res.by_instance.get(bi, []):
-                            names.update(a[0] for a in atoms if a[0].startswith("__"))
+                            names.update(f"{a[0]}/{a[1]}" for a in atoms if a[0].startswith("__"))
                         aux.append([describe_instance(bi, universe), sorted(names)])
                     v["bad_aux"] = aux
                     v.update(att)
                     cres["violations"].append(v)
+                if "domains" in checks:
+                    from vt import domains  # pylint: disable=import-outside-toplevel
+
+                    voc = vocabulary(src_prg)
+                    for inst in sorted(res.by_instance, key=lambda i: (len(i), sorted(i))):
+                        if inst in excluded:
+                            continue
+                        msg = domains.check(res.by_instance[inst], voc)
+                        if msg:
+                            prev = rec["stages"][-2][1] if len(rec["stages"]) > 1 else job["prog"]
+                            sig, canon = rewrite_signature("\n".join(str(s) for s in parse(job["prog"])), rec["result_text"])
+                            cres["violations"].append({"kind": "domain", "detail": msg, "culprit": "domain",
+                                                       "instance": describe_instance(inst, universe), "sig": sig,
+                                                       "before": "\n".join(str(s) for s in parse(job["prog"])),
+                                                       "after": rec["result_text"]})
+                            break
                 # outcome signature: how the projected collections vary over instances
                 sig = h(repr(sorted((sorted(i), oracle.render(oracle.project(m, mode if mode != "sat" else "shown",
                                                                               preds, orc["costs"], orc["multiset"])))
